@@ -459,7 +459,26 @@ func ruleDoBounded(c *Ctx, r *R) {
 		if bound != nil && pPar != nil && nPar != nil {
 			good = true
 			hasParam, hasClampN, hasMaxprocs := false, false, false
-			for _, lf := range valueLeaves(bound, im.chain, 0) {
+			minClamp := false
+			leaves := valueLeaves(bound, im.chain, 0)
+			// xmath.Min(parallelism, n) is the clamp written with the module's helper: its operands are the alternatives
+			for changed := true; changed; {
+				changed = false
+				var next []leafVal
+				for _, lf := range leaves {
+					if mc, ok := lf.v.(*ssa.Call); ok && isXmathMin(mc) {
+						for _, a := range mc.Call.Args {
+							next = append(next, valueLeaves(a, lf.chain, 0)...)
+						}
+						minClamp = true
+						changed = true
+						continue
+					}
+					next = append(next, lf)
+				}
+				leaves = next
+			}
+			for _, lf := range leaves {
 				switch x := lf.v.(type) {
 				case *ssa.Parameter:
 					switch x {
@@ -520,6 +539,9 @@ func ruleDoBounded(c *Ctx, r *R) {
 				if bin.Op == token.LEQ && ys.isConst(0) {
 					dflt = true
 				}
+			}
+			if minClamp {
+				clamp = true // min(parallelism, n): the same bound as `if parallelism > n { parallelism = n }`
 			}
 			if !clamp || !dflt {
 				good = false
@@ -937,4 +959,14 @@ func effectiveWorkers(im doImpl, spawned []*ssa.Function) []*ssa.Function {
 		out = append(out, repl)
 	}
 	return out
+}
+
+// isXmathMin: a call of the module's xmath.Min with two arguments.
+func isXmathMin(call *ssa.Call) bool {
+	cal := calleeOf(&call.Call)
+	if cal == nil || len(call.Call.Args) != 2 {
+		return false
+	}
+	o := origin(cal)
+	return o.Name() == "Min" && o.Pkg != nil && strings.HasSuffix(o.Pkg.Pkg.Path(), "/xmath")
 }
